@@ -212,7 +212,13 @@ func (p *LiteralPolicy) IsSmallInt(c constant.Value) bool {
 	}
 	val, exact := constant.Int64Val(c)
 	if !exact {
-		return false
+		// Beyond the int64 range (uint64 masks such as 0x8000000000000000). A policy whose range
+		// is open on that side (KeepAllLiteralsPolicy) keeps these too; without this, two such
+		// constants rendered alike even "with all literals kept".
+		if constant.Sign(c) > 0 {
+			return p.SmallIntMax == math.MaxInt64
+		}
+		return p.SmallIntMin == math.MinInt64
 	}
 	return val >= p.SmallIntMin && val <= p.SmallIntMax
 }
